@@ -15,12 +15,15 @@
 (*            emitted must satisfy SortInfer's Verdict against the Meaning of *)
 (*            the query (REJECT); the result is compared with the Machine's   *)
 (*            (DRIFT)                                                         *)
-EXTENDS Backend, SortInfer, Json, IOUtils
+(*   Names  : the names given to table declarations and relation instances    *)
+(*            must satisfy Names.tla's Verdict (REJECT); the declarations'     *)
+(*            names are compared with the machine's (DRIFT)                    *)
+EXTENDS Backend, SortInfer, Names, Json, IOUtils
 
 Rec == ndJsonDeserialize(IOEnv.TRACE)
-VARIABLES l, cur, judge, nsplit, nselect, npre, nrej, ndrift, npost
-vars == <<l, cur, judge, nsplit, nselect, npre, nrej, ndrift, npost>>
-TInit == l = 1 /\ cur = <<"", "">> /\ judge = FALSE /\ nsplit = 0 /\ nselect = 0 /\ npre = 0 /\ nrej = 0 /\ ndrift = 0 /\ npost = 0
+VARIABLES l, cur, judge, nsplit, nselect, npre, nrej, ndrift, npost, nnames
+vars == <<l, cur, judge, nsplit, nselect, npre, nrej, ndrift, npost, nnames>>
+TInit == l = 1 /\ cur = <<"", "">> /\ judge = FALSE /\ nsplit = 0 /\ nselect = 0 /\ npre = 0 /\ nrej = 0 /\ ndrift = 0 /\ npost = 0 /\ nnames = 0
 Ev == Rec[l]
 Consume == l <= Len(Rec) /\ l' = l + 1
 
@@ -57,7 +60,7 @@ ShapeVerdict(e) ==
   ELSE "ok"
 
 Reset == /\ Consume /\ Ev.ev = "Reset" /\ cur' = <<Ev.id, Ev.dialect>> /\ judge' = (Ev.outcome = "sql")
-         /\ UNCHANGED <<nsplit, nselect, npre, nrej, ndrift, npost>>
+         /\ UNCHANGED <<nsplit, nselect, npre, nrej, ndrift, npost, nnames>>
 \* preprocess: what became of each RQ transform (group-takes, appends), and where the Computes went
 PreEv ==
   /\ Consume /\ Ev.ev = "Pre"
@@ -68,7 +71,7 @@ PreEv ==
           /\ ndrift' = ndrift + (IF d THEN 1 ELSE 0)
           /\ (v # "ok" => PrintT(<<"REJECT", cur[1], cur[2], "preprocess-" \o v, l, <<0, 0>>>>))
           /\ (d => PrintT(<<"DRIFT", cur[1], cur[2], l, "reorder">>))
-  /\ UNCHANGED <<cur, judge, nsplit, nselect, npost>>
+  /\ UNCHANGED <<cur, judge, nsplit, nselect, npost, nnames>>
 SplitEv ==
   /\ Consume /\ Ev.ev = "Split"
   /\ IF ~judge THEN UNCHANGED <<nsplit, nrej, ndrift>>
@@ -79,7 +82,7 @@ SplitEv ==
           /\ (v # "ok" => PrintT(<<"REJECT", cur[1], cur[2], v, l, FirstBadPair(Ev.atomic)>>))
           /\ (d => PrintT(<<"DRIFT", cur[1], cur[2], l, LET m == Split(Ev.input, Ev.output, DeclCx(Ev)) IN
                                  <<Ids(NonSel(m.atomic)), Len(m.preceding), m.atomic[1].cols, IF m.preceding = <<>> THEN <<>> ELSE m.preceding[Len(m.preceding)].cols>>>>))
-  /\ UNCHANGED <<cur, judge, nselect, npre, npost>>
+  /\ UNCHANGED <<cur, judge, nselect, npre, npost, nnames>>
 SelectEv ==
   /\ Consume /\ Ev.ev = "Select"
   /\ IF ~judge THEN UNCHANGED <<nselect, nrej>>
@@ -87,7 +90,7 @@ SelectEv ==
           /\ nselect' = nselect + 1
           /\ nrej' = nrej + (IF v = "ok" THEN 0 ELSE 1)
           /\ (v # "ok" => PrintT(<<"REJECT", cur[1], cur[2], "assembly-" \o v, l, <<0, 0>>>>))
-  /\ UNCHANGED <<cur, judge, nsplit, npre, ndrift, npost>>
+  /\ UNCHANGED <<cur, judge, nsplit, npre, ndrift, npost, nnames>>
 \* sort inference: the emitted sorts against the meaning of the query; the code's result against the machine's
 PostEv ==
   /\ Consume /\ Ev.ev = "Post"
@@ -100,10 +103,27 @@ PostEv ==
              /\ ndrift' = ndrift + (IF dr = {} THEN 0 ELSE 1)
              /\ \A x \in vs : PrintT(<<"REJECT", cur[1], cur[2], "sortinfer-" \o x[2], l, x[1]>>)
              /\ (dr # {} => PrintT(<<"DRIFT", cur[1], cur[2], l, <<"sortinfer", dr>>>>))
-  /\ UNCHANGED <<cur, judge, nsplit, nselect, npre>>
-End == Consume /\ Ev.ev = "End" /\ PrintT(<<"COUNTS", nsplit, nselect, nrej, ndrift, npre, npost>>) /\ UNCHANGED <<cur, judge, nsplit, nselect, npre, nrej, ndrift, npost>>
+  /\ UNCHANGED <<cur, judge, nsplit, nselect, npre, nnames>>
+\* the names given by QueryLoader::load / assign_names / RelVarNameAssigner
+NamesEv ==
+  /\ Consume /\ Ev.ev = "Names"
+  /\ IF ~judge THEN UNCHANGED <<nnames, nrej, ndrift>>
+     ELSE LET cfg == [decls |-> [i \in 1 .. Len(Ev.decls) |-> [name |-> Ev.decls[i].name, extern |-> Ev.decls[i].extern]],
+                      selects |-> [k \in 1 .. Len(Ev.selects) |-> [i \in 1 .. Len(Ev.selects[k]) |-> [alias |-> Ev.selects[k][i].alias, src |-> Ev.selects[k][i].src]]]]
+              real == [decls |-> [i \in 1 .. Len(Ev.decls) |-> [name |-> Ev.decls[i].out, extern |-> Ev.decls[i].extern]],
+                       selects |-> [k \in 1 .. Len(Ev.selects) |-> [i \in 1 .. Len(Ev.selects[k]) |-> [alias |-> Ev.selects[k][i].out, src |-> Ev.selects[k][i].src]]]]
+              v == NamesVerdict(cfg, real)
+              m == AssignDecls(Load(cfg.decls), 0).decls
+              dr == [i \in 1 .. Len(m) |-> m[i].name] # [i \in 1 .. Len(real.decls) |-> real.decls[i].name]
+          IN /\ nnames' = nnames + 1
+             /\ nrej' = nrej + (IF v = "ok" THEN 0 ELSE 1)
+             /\ ndrift' = ndrift + (IF dr THEN 1 ELSE 0)
+             /\ (v # "ok" => PrintT(<<"REJECT", cur[1], cur[2], "names-" \o v, l, <<0, 0>>>>))
+             /\ (dr => PrintT(<<"DRIFT", cur[1], cur[2], l, <<"names", [i \in 1 .. Len(m) |-> m[i].name]>>>>))
+  /\ UNCHANGED <<cur, judge, nsplit, nselect, npre, npost>>
+End == Consume /\ Ev.ev = "End" /\ PrintT(<<"COUNTS", nsplit, nselect, nrej, ndrift, npre, npost, nnames>>) /\ UNCHANGED <<cur, judge, nsplit, nselect, npre, nrej, ndrift, npost, nnames>>
 
-TNext == Reset \/ PreEv \/ SplitEv \/ SelectEv \/ PostEv \/ End
+TNext == Reset \/ PreEv \/ SplitEv \/ SelectEv \/ PostEv \/ NamesEv \/ End
 TraceSpec == TInit /\ [][TNext]_vars
 TraceAccepted ==
   LET d == TLCGet("stats").diameter IN
